@@ -17,9 +17,10 @@ for k in sorted(byid, key=lambda s: (not s.startswith("revert"), s)):
     what = d["what"] or ("reverse of the `fix:` commit for " + k.replace("revert-", ""))
     flag = (" **(hard mode)**" if d["hard_mode"] else "") + (" **(missed at first; check strengthened)**" if d["missed_first"] else "")
     esc = lambda t: t.replace("|", "\\|")  # noqa: E731
-    rows.append(f"| `seeded/{k}` | {esc(what)}{flag} | {', '.join(d['breaks'])} | " + "; ".join(f"{p}: {esc(t)}" for p, t in sorted(d["caught_by"].items())) + " |")
+    caught = "; ".join(f"{p}: {esc(t)}" for p, t in sorted(d["caught_by"].items())) or "**NOT CAUGHT** (see note in seeded/ledger.json)"
+    rows.append(f"| `seeded/{k}` | {esc(what)}{flag} | {', '.join(d['breaks'])} | {caught} |")
 n = len(byid); missed = sum(1 for d in byid.values() if d["missed_first"])
-txt = f"{n} seeded changes ({sum(1 for k in byid if k.startswith('revert'))} reverse patches of repaired defects, {n - sum(1 for k in byid if k.startswith('revert'))} written by independent sub-agents that saw only the property text); {missed} were missed by the checks as they stood and led to the strengthening noted; all are caught now.\n\n" + "\n".join(rows)
+txt = f"{n} seeded changes ({sum(1 for k in byid if k.startswith('revert'))} reverse patches of repaired defects, {n - sum(1 for k in byid if k.startswith('revert'))} written by independent sub-agents that saw only the property text); {missed} were missed by the checks as they stood and led to the strengthening noted; all but those marked NOT CAUGHT are caught now.\n\n" + "\n".join(rows)
 p = os.path.join(V, "DESIGN.md"); s = open(p).read()
 a, b = "<!-- LEDGER-BEGIN -->", "<!-- LEDGER-END -->"
 if a not in s:
